@@ -160,11 +160,26 @@ def holds4 (cfg : Cfg4) (req : ReqView4) (pre : Resp4) (out : Out4) : Bool :=
   | .sleep _ => out == (some pre, false)
   | .serverid _ => true                       -- C14
 
-/-- in-range arguments (the quantifier of C17): MTU 0..65535, durations 0..2^32-1 seconds -/
+/-- Numbers that fit the field they are sent in: an MTU of 0..65535 (two bytes), a duration whose
+whole seconds are 0..2^32-1 (four bytes). C17 speaks of every ACCEPTED configuration, and C19 says
+that what cannot be honoured on the wire is rejected at start-up: an accepted configuration must be
+of this kind (`C17_accepted_in_range`; before the repair of D22–D24 the three set-ups accepted every
+number and the handlers sent it modulo 2^16 / 2^32). -/
 def inRange4 : Cfg4 → Bool
   | .mtu n => decide (0 ≤ n) && decide (n ≤ 65535)
   | .leasetime d => decide (0 ≤ d) && decide (d < 4294967296 * 1000000000)
   | .ipv6only d => decide (0 ≤ d) && decide (d < 4294967296 * 1000000000)
+  | _ => true
+
+/-- "exactly the configured value", for the plugins whose value is a number: what a client decodes
+from the option the plugin adds (the library's `Uint16.FromBytes` / `Duration.FromBytes`) is the
+configured number — the MTU itself; of a duration (nanoseconds) its whole seconds, the wire format
+having no parts of a second. Compared as integers: a negative configured value is never what a
+client reads. -/
+def exact4 : Cfg4 → Bool
+  | .mtu n => (decBe 2 (encU16 n)).map Int.ofNat == some n
+  | .leasetime d => (decBe 4 (encSecs d)).map Int.ofNat == some (d / 1000000000)
+  | .ipv6only d => (decBe 4 (encSecs d)).map Int.ofNat == some (d / 1000000000)
   | _ => true
 
 /-- number of options with that code -/
@@ -228,9 +243,9 @@ def wireOK : PlugCfg → Bool
   | .v4 (.dns ips) => !ips.isEmpty && ips.all (·.length == 4)
   | .v4 (.router ips) => !ips.isEmpty && ips.all (·.length == 4)
   | .v4 (.netmask m) => m.length == 4
-  | .v4 (.mtu _) => true                         -- two bytes, whatever the number
-  | .v4 (.leasetime _) => true                   -- four bytes
-  | .v4 (.ipv6only _) => true
+  | .v4 (.mtu n) => C17.inRange4 (.mtu n)              -- two bytes: 0..65535
+  | .v4 (.leasetime d) => C17.inRange4 (.leasetime d)  -- four bytes: 0..2^32-1 whole seconds
+  | .v4 (.ipv6only d) => C17.inRange4 (.ipv6only d)
   | .v4 (.search names) => names.all nameOK
   | .v4 (.staticroute rs) => !rs.isEmpty && rs.all routeOK
   | .v4 (.autoconfigure v) => decide (v < 256)
